@@ -7,7 +7,8 @@
        vector), n-ary mixing sums from `nary_sum_weight_factory` (here: mixing_weight_factory over the same parameterisation: a
        softmax over the arity axis expanded to diagonal blocks); the input layers are the ones built by the caller's input factory
        for the variable of their region.  With the stated lemma (L-norm) this gives Z = 1 for every value of the tensors.
-Abstractions cp / cp-t / tucker; templates: a two-level tree and a root with two partitions (n-ary mixing).
+Abstractions cp / cp-t / tucker; templates: a two-level tree, a root with two partitions (n-ary mixing), and region graphs whose
+root region is itself an input region (one variable; two variables factorised into univariate inputs).
 """
 import z3
 
@@ -31,6 +32,13 @@ def _rg(vc, shape):
         g.partition([a, b], rab, [ra, rb])
         g.partition([a, b, c], root, [rab, rc])
         return g, [root], [a, b, c]
+    if shape == "input_root1":                         # a region graph whose root region is itself an input region
+        a = vc.int("a", lo=0)
+        return g, [g.region([a])], [a]
+    if shape == "input_root2":                         # ... over two variables (factorised into a Hadamard of univariate inputs)
+        a, b = vc.int("a", lo=0), vc.int("b", lo=0)
+        vc.assume(a != b)
+        return g, [g.region([a, b])], [a, b]
     a, b = vc.int("a", lo=0), vc.int("b", lo=0)
     vc.assume(a != b)
     ra, rb, ra2, rb2 = g.region([a]), g.region([b]), g.region([a]), g.region([b])
@@ -59,7 +67,7 @@ def _weight_kind(vc, P):
     return None
 
 
-for _shape in ("tree", "two_partitions"):
+for _shape in ("tree", "two_partitions", "input_root1", "input_root2"):
     for _sp in ("cp", "cp-t", "tucker"):
         def _h(vc, _shape=_shape, _sp=_sp):
             g, roots, vs = _rg(vc, _shape)
